@@ -95,7 +95,8 @@ C15Cases(z) == DlRead(0) \cup OneFrame(0) \cup TwoFrames(0) \cup ThreeFrames(0) 
 
 ----------------------------------------------------------------------------
 Whole(f, handler, e2e) == [op |-> "stream", frames |-> <<f>>, segs |-> <<Len(f)>>, handler |-> handler, e2e |-> e2e]
-Handlers == {"device", "errTyped", "errGeneric", "panic", "nil"}
+\* errRelayed: the handler returns a typed parse error that was filled in for another frame (tid, unit, function of its own)
+Handlers == {"device", "errTyped", "errGeneric", "errRelayed", "panic", "nil"}
 
 LegalFrames == {Frame(n, 4660) : n \in Names}
 UnsupportedFrames == {Hdr(4660, 6, 9) \o <<fc, 0, 1, 0, 1>> : fc \in (IF Thorough THEN (1..127) \ SupportedFC ELSE {7, 8, 11, 20, 22, 24, 33, 37, 43, 48, 55, 64, 65, 100, 127})}
